@@ -51,7 +51,7 @@ def awkward_failures(ctx):
             return False
     for exc in (ValueError("v"), Cancelled("c"), SystemExit(3), Falsy("f")):
         for variant in ("plain", "raising-repr-callable", "raising-repr-scope", "inside-except"):
-            for workers in (1, 3):
+            for workers, retry in ((1, None), (3, None), (1, 2), (3, 3)):
                 plan = uberjob.Plan()
                 dependents = []
                 if variant == "raising-repr-callable":
@@ -72,9 +72,9 @@ def awkward_failures(ctx):
                             try:
                                 raise KeyError("unrelated")
                             except KeyError:
-                                uberjob.run(plan, output=after, max_workers=workers, progress=None)
+                                uberjob.run(plan, output=after, max_workers=workers, progress=None, retry=retry)
                         else:
-                            uberjob.run(plan, output=after, max_workers=workers, progress=None)
+                            uberjob.run(plan, output=after, max_workers=workers, progress=None, retry=retry)
                         box["o"] = ("returned", None)
                     except uberjob.CallError as e:
                         box["o"] = ("callerror", e)
@@ -87,8 +87,8 @@ def awkward_failures(ctx):
                     th.join(20)
                 finally:
                     threading.excepthook = hook
-                rep = {"exception": type(exc).__name__, "variant": variant, "max_workers": workers}
-                ctx.case(("c06-awkward", type(exc).__name__, variant, workers))
+                rep = {"exception": type(exc).__name__, "variant": variant, "max_workers": workers, "retry": retry}
+                ctx.case(("c06-awkward", type(exc).__name__, variant, workers, retry))
                 if "o" not in box:
                     ctx.fail("awkward:hang", "a call raising %s (%s): run did not return within 20 s" % (type(exc).__name__, variant), rep)
                     return
